@@ -79,7 +79,7 @@ func ensureIntrinsics(pkg *types.Package) {
 	}
 	v := func(name string, t types.Type) *types.Var { return types.NewVar(token.NoPos, pkg, name, t) }
 	// old[T](x T) T, head[T](x T) T
-	for _, n := range []string{"old", "head"} {
+	for _, n := range []string{"old", "head", "pre"} {
 		tp := mkTP("T")
 		sig := types.NewSignatureType(nil, nil, []*types.TypeParam{tp}, types.NewTuple(v("x", tp)), types.NewTuple(v("", tp)), false)
 		sc.Insert(types.NewFunc(token.NoPos, pkg, n, sig))
@@ -133,6 +133,8 @@ func ensureIntrinsics(pkg *types.Package) {
 	f64 := types.Typ[types.Float64]
 	sc.Insert(types.NewFunc(token.NoPos, pkg, "isnan", types.NewSignatureType(nil, nil, nil, types.NewTuple(v("x", f64)), types.NewTuple(v("", boolT)), false)))
 	sc.Insert(types.NewFunc(token.NoPos, pkg, "isinf", types.NewSignatureType(nil, nil, nil, types.NewTuple(v("x", f64)), types.NewTuple(v("", boolT)), false)))
+	// rangepos(): byte position of the string iterator of the loop the clause belongs to
+	sc.Insert(types.NewFunc(token.NoPos, pkg, "rangepos", types.NewSignatureType(nil, nil, nil, nil, types.NewTuple(v("", intT)), false)))
 	// backedge(), returned()
 	for _, n := range []string{"backedge", "returned"} {
 		sc.Insert(types.NewFunc(token.NoPos, pkg, n, types.NewSignatureType(nil, nil, nil, nil, types.NewTuple(v("", boolT)), false)))
@@ -273,8 +275,7 @@ func (e *SpecEnv) eval(x ast.Expr) Val {
 		case token.ADD:
 			return v
 		case token.AND:
-			// address-of: only for pointers to heap values we can name
-			e.fail("address-of in specification")
+			return e.addrOf(n.X)
 		}
 	case *ast.BinaryExpr:
 		switch n.Op {
@@ -668,7 +669,7 @@ func (e *SpecEnv) builtin(name string, n *ast.CallExpr) Val {
 
 func (e *SpecEnv) intrinsic(name string, n *ast.CallExpr, targs []types.Type) Val {
 	switch name {
-	case "old":
+	case "old", "pre":
 		if e.old == nil {
 			e.fail("old() not available here")
 		}
@@ -773,6 +774,20 @@ func (e *SpecEnv) intrinsic(name string, n *ast.CallExpr, targs []types.Type) Va
 		return FOp("fp.isNaN", e.eval(n.Args[0]).(*Term))
 	case "isinf":
 		return FOp("fp.isInfinite", e.eval(n.Args[0]).(*Term))
+	case "rangepos":
+		if e.frame == nil || e.loop == nil {
+			e.fail("rangepos() outside a loop clause")
+		}
+		for b := range e.frame.li.body[e.loop] {
+			for _, instr := range b.Instrs {
+				if nx, ok := instr.(*ssa.Next); ok && nx.IsString {
+					if p, ok := e.state().iters[nx.Iter.(*ssa.Range)]; ok {
+						return p
+					}
+				}
+			}
+		}
+		e.fail("loop has no string range iterator")
 	case "backedge", "returned":
 		if v, ok := e.objs[nil]; ok {
 			_ = v
